@@ -18,6 +18,9 @@ use std::time::Duration;
 pub enum Out {
     File,
     Writer,
+    /// log_to_file_and_writer: the file is /dev/full (every write(2) fails with ENOSPC, so every
+    /// flush of a buffering mode fails), the writer is healthy: what is asserted is the writer
+    WriterBesideFullDevice,
     Stdout,
     Stderr,
 }
@@ -352,7 +355,7 @@ impl Property for P {
     fn strategy(_tier: Tier) -> BoxedStrategy<Case> {
         let mode = prop_oneof![2 => sync_mode_strat(), 1 => async_mode_strat()];
         (
-            prop_oneof![6 => Just(Out::File), 3 => Just(Out::Writer), 1 => Just(Out::Stdout), 1 => Just(Out::Stderr)],
+            prop_oneof![12 => Just(Out::File), 6 => Just(Out::Writer), 2 => Just(Out::Stdout), 2 => Just(Out::Stderr), 1 => Just(Out::WriterBesideFullDevice)],
             mode,
             prop::option::weighted(0.5, (prop_oneof![Just(30u64), Just(200u64), 10u64..400], naming_strat())),
             prop_oneof![3 => Just(Terminal::Shutdown), 3 => Just(Terminal::DropLastHandle), 2 => Just(Terminal::Flush), 1 => Just(Terminal::ShutdownTwice), 1 => Just(Terminal::DropLastTwo), 1 => Just(Terminal::ShutdownWhileLogging)],
@@ -464,7 +467,7 @@ impl Property for P {
                 let sig = if run.clone_drop_before_write { "records-missing-after-clone-drop" } else { "records-missing-after-terminal-call" };
                 out.set_fail(sig, format!("after {:?} ({:?}, {:?}): {}", case.terminal, case.out, case.cfg.mode, diff_msg(&expected, &got)));
             }
-            let buffering = case.cfg.mode.is_async() || case.cfg.mode.buffer_cap().is_some() || case.out == Out::Writer;
+            let buffering = case.cfg.mode.is_async() || case.cfg.mode.buffer_cap().is_some() || matches!(case.out, Out::Writer | Out::WriterBesideFullDevice);
             if run.clone_drop_before_write {
                 out.class("clone-dropped-before-write");
             }
@@ -547,6 +550,39 @@ impl Property for P {
                     Err(e) => return Outcome::fail("build-failed", format!("{e:?}")),
                 };
                 let mut run = drive(case, log, handle, &mut |_| Ok(()));
+                let got: Vec<u8> = committed.lock().unwrap().iter().flat_map(|s| {
+                    let mut b = s.clone().into_bytes();
+                    b.push(b'\n');
+                    b
+                }).collect();
+                run.stop_bg();
+                finish(&mut out, &run, got);
+            }
+            Out::WriterBesideFullDevice => {
+                out.class("out:writer-beside-failing-file");
+                let committed = Arc::new(Mutex::new(Vec::new()));
+                let w = Buffering { pending: Mutex::new(Vec::new()), committed: committed.clone() };
+                let spec = match flexi_logger::FileSpec::try_from("/dev/full") {
+                    Ok(s) => s,
+                    Err(e) => return Outcome::fail("build-failed", format!("{e:?}")),
+                };
+                let (log, handle) = match base_logger(case).log_to_file_and_writer(spec, Box::new(w)).build() {
+                    Ok(x) => x,
+                    Err(e) => return Outcome::fail("build-failed", format!("{e:?}")),
+                };
+                let c2 = committed.clone();
+                let mut run = drive(case, log, handle, &mut |expected_so_far: &[String]| {
+                    let got = c2.lock().unwrap().clone();
+                    let mine: Vec<String> = got.into_iter().filter(|l| l.starts_with("0:")).collect();
+                    if mine != expected_so_far {
+                        return Err(format!(
+                            "right after flush() returned, the (healthy) writer beside the failing file has committed {} of the {} records this thread had logged",
+                            mine.len(),
+                            expected_so_far.len()
+                        ));
+                    }
+                    Ok(())
+                });
                 let got: Vec<u8> = committed.lock().unwrap().iter().flat_map(|s| {
                     let mut b = s.clone().into_bytes();
                     b.push(b'\n');
